@@ -511,11 +511,7 @@ package smtp
 // ---------------------------------------------------------------------------
 // C03 (continued): nothing but the rendering of the Msg goes into the DATA section
 //
-// d.dwrites (ghost) counts the calls of dataCloser.Write. The writer returned by Data has seen none; in
-// sendSingleMsg it is written to by Msg.WriteTo only (see the assertions in the mail package).
-//@ ghost field dwrites int
-//@ at smtp.dataCloser.Write entry ghost[C03:g] d.dwrites = d.dwrites + 1
-//@ func smtp.dataCloser.Write (p) (n, err)
-//@   ensures[C03:counted] d.dwrites == old(d.dwrites) + 1
+// sinkacc (ghost, io.spec) counts the bytes a writer has accepted through Write calls. The writer returned by
+// Data has accepted none; in sendSingleMsg it is written to by Msg.WriteTo only (assertions in the mail package).
 //@ func smtp.Client.Data () (w, err)
-//@   ensures[C03:untouched] err == nil ==> as(w, "*smtp.dataCloser").dwrites == 0
+//@   ensures[C03:untouched] err == nil ==> w.sinkacc == 0
